@@ -11,6 +11,7 @@
    WithIgnoreDirectives.  Rule bodies and the parser are oracles: [raw], [comments] below. *)
 From Coq Require Import List Permutation NArith.
 From Regal Require Import Base.Str Model.Directive Proofs.Directive.
+From Regal Require Import Model.AggPipeline Model.AggCache Proofs.AggCache.
 Import ListNotations.
 Local Open Scope N_scope.
 
@@ -192,6 +193,33 @@ Theorem c06_split_runs_directives_carried :
 Proof. exact two_phase_directives_lemma. Qed.
 Print Assumptions c06_split_runs_directives_carried.
 
+(* Directives handed from run to run.  Model/AggPipeline.v [dirs_update old new]: the hand-over as an explicit map
+   update (Lint: maps.Copy(provided), then maps.Copy(own); a client: dirs[file] = exported entry) -- an entry of
+   [new] REPLACES the old entry of the same file, and a linted file always has an entry, the empty object when it has
+   no directive; [lint_dirs given own] = what the aggregate report of a Lint call over [own] sees when handed
+   [given].  Model/AggCache.v: [api_history fs0 edits] = (files, directive map) of a client that linted fs0 with
+   export and then re-linted the files of [edits] one at a time, updating its map from every run's
+   Report.IgnoreDirectives; [files_after fs0 edits] the contents after those writes; [replace_file].
+   For every history of single-file replacements and every violation:
+   (1) a report-only run handed the client's map ignores exactly what ONE run over the final contents ignores;
+   (2) a run that itself re-lints f' and is handed the (for f' stale) map ignores exactly what one run over the
+       contents with f' replaced ignores;
+   (3) in particular: when the new f' has no directive left, nothing located in f' is ignored, whatever directives
+       f' had earlier in the history. *)
+Theorem c06_incremental_directives_eq_fresh :
+  forall (fs0 edits : list (str * list comment)) (f' : str * list comment) (v : violation),
+  NoDup (map fst fs0) ->
+  let File := (str * list comment)%type in
+  let client := api_history File fst snd fs0 edits in
+  let final := files_after File fst fs0 edits in
+  agg_ignored (lint_dirs File fst snd (snd client) []) v = agg_ignored (carry (file_results final)) v /\
+  agg_ignored (lint_dirs File fst snd (snd client) [f']) v =
+    agg_ignored (carry (file_results (replace_file File fst f' final))) v /\
+  (directive_entries (snd f') = [] -> v_file v = fst f' ->
+   agg_ignored (lint_dirs File fst snd (snd client) [f']) v = false).
+Proof. exact (api_history_directives (str * list comment) fst snd). Qed.
+Print Assumptions c06_incremental_directives_eq_fresh.
+
 (* ---- non-vacuity ---------------------------------------------------------------------------------- *)
 
 Definition ex_text : str :=   (* " regal ignore: foo-bar ,\tline-length" *)
@@ -260,3 +288,20 @@ Proof.
   cbn zeta. split; [repeat constructor; [intros [H|[]]; discriminate | intros []]|].
   repeat split; reflexivity.
 Qed.
+
+(* file "a" had the directive, the client re-linted it without, then with it again: the map the client hands on
+   follows (ignored, not ignored, ignored) -- and the one-file run itself sees the same when handed the stale map *)
+Example c06_history_nonvacuous :
+  let d := [{| c_row := 3; c_text := 32 :: MARKER ++ [120] |}] in
+  let fs0 := [([97], d); ([98], [])] in
+  let v := {| v_cat := []; v_title := [120]; v_file := [97]; v_row := Some 4; v_col := 1 |} in
+  let File := (str * list comment)%type in
+  let seen edits own := agg_ignored (lint_dirs File fst snd (snd (api_history File fst snd fs0 edits)) own) v in
+  NoDup (map fst fs0) /\
+  seen [] [] = true /\ seen [([97], [])] [] = false /\ seen [([97], []); ([97], d)] [] = true /\
+  seen [] [([97], [])] = false /\ seen [([97], [])] [([97], d)] = true.
+Proof.
+  cbn zeta. split; [repeat constructor; [intros [H|[]]; discriminate | intros []]|].
+  repeat split; reflexivity.
+Qed.
+
